@@ -3,34 +3,36 @@
 For each: git -C /repo apply, ./check <ID> quick (expect exit 1 + VIOLATION), git -C /repo checkout -- .
 Writes seeded/REGRESS.json.  Must not run concurrently with anything else that uses /repo."""
 import subprocess, os, json, sys, re
+REPO = os.environ.get("REGRESS_REPO", "/repo")      # a scratch worktree of /repo may be used instead ...
+VERIF = os.environ.get("REGRESS_VERIF", "/verif")   # ... together with a copy of /verif whose harness depends on it (tools/regress_bg.sh)
 def sh(cmd, cwd=None):
     return subprocess.run(cmd, shell=True, cwd=cwd, capture_output=True, text=True)
-assert sh("git status --porcelain", "/repo").stdout.strip() == "", "/repo dirty"
+assert sh("git status --porcelain", REPO).stdout.strip() == "", "/repo dirty"
 only = sys.argv[1:]
 res = {}
-for d in sorted(os.listdir("/verif/seeded")):
-    pd = f"/verif/seeded/{d}/patch.diff"
+for d in sorted(os.listdir(VERIF + "/seeded")):
+    pd = f"{VERIF}/seeded/{d}/patch.diff"
     if not os.path.exists(pd): continue
     pid = d.split("-")[0]
     if only and pid not in only and d not in only: continue
-    r = sh(f"git apply {pd}", "/repo")
+    r = sh(f"git apply {pd}", REPO)
     if r.returncode != 0:
         res[d] = {"error": "patch does not apply: " + r.stderr[:200]}; print(d, res[d]); continue
     try:
-        rr = sh(f"./check {pid} quick", "/verif")
+        rr = sh(f"./check {pid} quick", VERIF)
         first = [l for l in rr.stdout.splitlines() if l.startswith("  detail")][:1]
         res[d] = {"exit": rr.returncode, "caught": rr.returncode == 1 and "VIOLATION property=" + pid in rr.stdout, "first": (first[0][:200] if first else "")}
     finally:
-        sh("git checkout -- .", "/repo")
+        sh("git checkout -- .", REPO)
     print(d, res[d]["exit"], "caught" if res[d].get("caught") else "MISSED", flush=True)
-json.dump(res, open("/verif/seeded/REGRESS.json", "w"), indent=1)
-expected = set(l.split()[0] for l in open("/verif/seeded/EXPECTED_MISSES.txt") if l.strip() and not l.startswith("#"))
+json.dump(res, open(VERIF + "/seeded/REGRESS.json", "w"), indent=1)
+expected = set(l.split()[0] for l in open(VERIF + "/seeded/EXPECTED_MISSES.txt") if l.strip() and not l.startswith("#"))
 for d in expected:
     if d in res:
         res[d]["expected_miss"] = True
         if res[d].get("caught"):
             print(d, "listed as an expected miss but caught")
-json.dump(res, open("/verif/seeded/REGRESS.json", "w"), indent=1)
+json.dump(res, open(VERIF + "/seeded/REGRESS.json", "w"), indent=1)
 missed = [d for d, v in res.items() if not v.get("caught") and d not in expected]
 print("missed:", missed)
 sys.exit(1 if missed else 0)
